@@ -174,6 +174,35 @@ pub fn run(cfg: &Cfg) -> Stats {
     }
     let (pi, pn) = cfg.pshard;
     let mut out = std::io::BufWriter::new(std::fs::File::create(&path).expect("create out file"));
+    // deterministic sweep: runs whose length sits on a power-of-two threshold (ids from 10^9 upwards)
+    let max_thr = match cfg.tier {
+        Tier::Tiny => 128usize,
+        Tier::Quick => 16384,
+        Tier::Thorough => 65536,
+    };
+    let mut k = 0u64;
+    for t in gen::THRESHOLDS.iter().filter(|t| **t <= max_thr) {
+        for d in -2i64..=2 {
+            for ending in 0..4u8 {
+                for styled in [false, true] {
+                    k += 1;
+                    if k % pn != pi {
+                        continue;
+                    }
+                    let doc = gen::threshold_document((*t as i64 + d) as usize, ending, styled);
+                    let input = String::from_utf8(doc).expect("ascii");
+                    let tc = make_cfg(k);
+                    st.eval();
+                    st.nontrivial_hash(hash64(format!("{input}{tc:?}").as_bytes()));
+                    st.count("threshold_run_documents");
+                    match document(1_000_000_000 + k, &input, &tc) {
+                        Ok(doc) => writeln!(out, "{}", doc.to_string()).expect("write"),
+                        Err(p) => st.viol("c14:panic", format!("render_svg panicked: {p}"), Case::new("c14").b(input.as_bytes()).n(k as i64)),
+                    }
+                }
+            }
+        }
+    }
     let mut i = pi;
     while i < n {
         let input = gen_input(cfg.seed, i, items);
